@@ -166,3 +166,21 @@ def child_index(children, elem):
         if isinstance(k, tuple) and k and k[0] == 'elem' and v is elem:
             return k[1]
     return None
+
+
+def show_key(k):
+    """readable form of a vkey() of an index value"""
+    if isinstance(k, int):
+        return str(k)
+    if isinstance(k, tuple) and k and k[0] == 'sym':
+        return str(k[1]).split('#')[0]
+    if isinstance(k, tuple) and k and k[0] == 'lin':
+        parts = []
+        for leaf, coef in k[2:]:
+            parts.append(('' if coef == 1 else '%d*' % coef) + show_key(leaf))
+        if k[1]:
+            parts.append(str(k[1]))
+        return '+'.join(parts)
+    if isinstance(k, tuple) and k and k[0] == 'term':
+        return '%s(%s)' % (k[1], ', '.join(show_key(x) for x in k[2:]))
+    return str(k)
